@@ -467,6 +467,11 @@ func TestVerifC23(t *testing.T) {
 	wg.Wait()
 	c23CloseDuringOutage(rep, 2)
 	c23CloseDuringOutage(rep, 5)
+	c23StalledConsumer(rep)
+	if ops, out := c23LostAck(rep); ops != nil {
+		allOps = append(allOps, ops)
+		allImpl = append(allImpl, out)
+	}
 	rep.vfCompareSegments("queuesvc", allOps, allImpl)
 }
 
@@ -583,6 +588,141 @@ func c23CloseDuringOutage(rep *vfReport, nReq int) {
 	rep.Case("close-during-outage", true)
 	rep.CountN("close-during-outage:accepted", accepted)
 	rep.CountN("close-during-outage:left-unapplied-by-shutdown(outside-property)", accepted-len(appliedStmts))
+}
+
+// c23StalledConsumer (directed): during an outage the consumer is stuck retrying request 1,
+// request 2 waits in the queue's one-slot output channel, and request 3 (with wait) is a
+// partial batch whose timer expires while that slot is full. When the outage ends all three
+// must be applied, in order, and the waiter must get 200 - nothing may be stranded.
+func c23StalledConsumer(rep *vfReport) {
+	var mu sync.Mutex
+	var appliedStmts []int
+	calls := 0
+	m := &MockStore{leaderAddr: "127.0.0.1:4002"}
+	c := &mockClusterService{}
+	m.executeFn = func(er *command.ExecuteRequest) ([]*command.ExecuteQueryResponse, uint64, error) {
+		mu.Lock()
+		defer mu.Unlock()
+		calls++
+		if calls <= 2 {
+			return nil, 0, store.ErrLeaderNotFound // ~2 s outage (runQueue sleeps 1 s per failure)
+		}
+		for _, st := range er.Request.Statements {
+			if mm := c23ValRe.FindStringSubmatch(st.Sql); mm != nil {
+				v, _ := strconv.Atoi(mm[1])
+				appliedStmts = append(appliedStmts, v)
+			}
+		}
+		return nil, 0, nil
+	}
+	svc := New("127.0.0.1:0", m, c, proxy.New(m, c), nil)
+	svc.DefaultQueueCap, svc.DefaultQueueBatchSz, svc.DefaultQueueTimeout = 16, 8, 5*time.Millisecond
+	svc.logger.SetOutput(io.Discard)
+	if err := svc.Start(); err != nil {
+		rep.Note("stalled-consumer scenario: start failed: %v", err)
+		return
+	}
+	defer svc.Close()
+	host := fmt.Sprintf("http://%s", svc.Addr().String())
+	post := func(q string, id int) int {
+		resp, err := http.Post(host+"/db/execute?queue"+q, "application/json", strings.NewReader(fmt.Sprintf(`["INSERT INTO t(v) VALUES(%d)"]`, id)))
+		if err != nil {
+			return -1
+		}
+		resp.Body.Close()
+		return resp.StatusCode
+	}
+	replay := map[string]interface{}{"scenario": "batch size 8, timeout 5 ms; Execute fails twice (2 s); request 1, 40 ms, request 2, 40 ms, request 3 with wait (10 s); no further requests"}
+	s1 := post("", 1)
+	time.Sleep(40 * time.Millisecond) // its timer fires; the consumer takes it and starts failing
+	s2 := post("", 2)
+	time.Sleep(40 * time.Millisecond) // its timer fires; it sits in the output slot
+	s3 := post("&wait&timeout=10s", 3) // partial batch; its timer expires while the slot is full
+	mu.Lock()
+	got := append([]int(nil), appliedStmts...)
+	mu.Unlock()
+	if s1 != 200 || s2 != 200 {
+		rep.Fail("queued-request-rejected", fmt.Sprintf("statuses %d %d", s1, s2), replay)
+		return
+	}
+	if s3 == 408 {
+		time.Sleep(1500 * time.Millisecond)
+		mu.Lock()
+		got = append([]int(nil), appliedStmts...)
+		mu.Unlock()
+		rep.Fail("wait-timed-out-statements-stranded", fmt.Sprintf("the waiter of request 3 got 408 after 10 s although Execute has been succeeding since ~2 s; applied so far: %s", c23Ints(got)), replay)
+		return
+	}
+	if s3 != 200 {
+		rep.Fail("queued-request-rejected", fmt.Sprintf("status %d", s3), replay)
+		return
+	}
+	if c23Ints(got) != "1,2,3" {
+		rep.Fail("applied-out-of-acceptance-order", fmt.Sprintf("stalled-consumer scenario: applied %s when the waiter returned, want 1,2,3", c23Ints(got)), replay)
+	}
+	rep.Case("stalled-consumer", true)
+	rep.Count("stalled-consumer-scenario")
+}
+
+// c23LostAck: Execute applies the batch but reports raft's "leadership lost while committing
+// log" (an error that does not say whether the entry was committed). runQueue retries on every
+// error, so the batch reaches the database a second time. The property text does not promise
+// exactly-once, so this is recorded as an observation (and an ASSUMPTION of the order/
+// contiguity theorems: lostAcks = 0), not as a failure; the trace is diffed with the model's
+// `execfailcommitted` step so that the model keeps describing what the code does.
+func c23LostAck(rep *vfReport) (ops, out []string) {
+	var mu sync.Mutex
+	var appliedBatches [][]int
+	calls := 0
+	m := &MockStore{leaderAddr: "127.0.0.1:4002"}
+	c := &mockClusterService{}
+	m.executeFn = func(er *command.ExecuteRequest) ([]*command.ExecuteQueryResponse, uint64, error) {
+		mu.Lock()
+		defer mu.Unlock()
+		calls++
+		var ids []int
+		for _, st := range er.Request.Statements {
+			if mm := c23ValRe.FindStringSubmatch(st.Sql); mm != nil {
+				v, _ := strconv.Atoi(mm[1])
+				ids = append(ids, v)
+			}
+		}
+		appliedBatches = append(appliedBatches, ids) // the entry is committed and applied ...
+		if calls == 1 {
+			return nil, 0, errors.New("leadership lost while committing log") // ... but the caller is told otherwise
+		}
+		return nil, 0, nil
+	}
+	svc := New("127.0.0.1:0", m, c, proxy.New(m, c), nil)
+	svc.DefaultQueueCap, svc.DefaultQueueBatchSz, svc.DefaultQueueTimeout = 16, 4, 2*time.Millisecond
+	svc.logger.SetOutput(io.Discard)
+	if err := svc.Start(); err != nil {
+		rep.Note("lost-ack scenario: start failed: %v", err)
+		return nil, nil
+	}
+	defer svc.Close()
+	host := fmt.Sprintf("http://%s", svc.Addr().String())
+	resp, err := http.Post(host+"/db/execute?queue&wait&timeout=20s", "application/json", strings.NewReader(`["INSERT INTO t(v) VALUES(7)","INSERT INTO t(v) VALUES(8)"]`))
+	if err != nil {
+		rep.Note("lost-ack scenario: request failed: %v", err)
+		return nil, nil
+	}
+	resp.Body.Close()
+	time.Sleep(20 * time.Millisecond)
+	mu.Lock()
+	defer mu.Unlock()
+	var ab []string
+	for _, b := range appliedBatches {
+		ab = append(ab, c23Ints(b))
+	}
+	if len(appliedBatches) > 1 {
+		rep.Note("observation (assumption of the exactly-once reading, not judged): Execute applied the batch but returned \"leadership lost while committing log\"; runQueue retried and the batch was applied %d times: %s", len(appliedBatches), strings.Join(ab, "|"))
+		rep.Count("lost-ack:batch-applied-more-than-once")
+	}
+	rep.Case("lost-ack", true)
+	ops = []string{"new 16 4 2000000", "write 7,8 0", "recv", "fire", "send", "take", "execfailcommitted", "execok", "applied", "closedflush", "failed"}
+	out = []string{"ok", "1", "ok", "ok", "ok", "ok", "ok", "ok", strings.Join(ab, "|"), "0", fmt.Sprint(calls - 1)}
+	return
 }
 
 // ---- live: real store.Store behind the real http.Service ------------------------------------
